@@ -195,3 +195,78 @@ def c10(tier, seed):
     c.required_counters = ["read_acquisitions", "write_acquisitions", "scripted_reader_inclusion",
                            "reads_with_other_readers_inside", "yields_inside_cs"]
     return c
+
+
+POOL_HAMMER = ("POP_NONEMPTY_SEEN", "PUSH_BEFORE_LOCK")
+
+
+@prop("C07")
+def c07(tier, seed):
+    c = Check("C07", tier, seed)
+    q = tier == "quick"
+    c.rule = ("each case = one history on one pool (kind x access mode drawn at random, 1-24 tokens, as many producer/consumer "
+              "OS threads as the access mode permits): a sequential phase compared op-by-op with a reference deque, blocking "
+              "pops on the empty pool, then a concurrent phase of push/push_many/pop/pop_many/pop_wait/pop_timedwait/remove "
+              "whose logged call/return tickets are checked offline (fresh, repeat, loss, FIFO order, empty pops, quiescent "
+              "size); non-trivial = the history contains at least one successful and one empty pop; distinct = distinct "
+              "(variant, delay, kind/access/token-class/producer/consumer signature)")
+    c.assumptions = ["call/return tickets come from one global atomic counter taken before the call and after the return, so "
+                     "the real-time order used by the checker is a linearizable total order",
+                     "all checker conditions are necessary conditions of linearizability (sound), not a complete decision"]
+    profiles = ["off", hammer(*POOL_HAMMER), "heavy", "uniform"]
+    soup(c, "h_pool", profiles, q, seed,
+         mon_args=lambda q: ["--histories", 50 if q else 400, "--ops", 400 if q else 1500],
+         san_args=lambda q: ["--histories", 15 if q else 60, "--ops", 150],
+         squeeze_args=lambda q: ["--histories", 25 if q else 150, "--ops", 200 if q else 600],
+         n_mon=(8, 60), n_asan=(1, 6), n_tsan=(1, 6), weight=6)
+    c.nontrivial = lambda r: (r.result or {}).get("counters", {}).get("pops_with_unit", 0) > 0 and \
+        (r.result or {}).get("counters", {}).get("pops_empty", 0) > 0
+    c.required_points = ["POP_NONEMPTY_SEEN", "POP_LOCK_CONTENDED", "POP_BECAME_EMPTY"]
+    c.required_counters = ["histories_fifo", "histories_fifo_wait", "histories_randws", "histories_priv", "histories_spsc",
+                           "histories_mpsc", "histories_spmc", "histories_mpmc", "pops_with_unit", "pops_empty",
+                           "popwait_with_unit", "popwait_empty", "removes_ok", "removes_not_in_pool", "batch_operations",
+                           "sequential_model_ops", "fifo_ordered_pairs_checked", "empty_pops_judged"]
+    return c
+
+
+@prop("C19")
+def c19(tier, seed):
+    c = Check("C19", tier, seed)
+    q = tier == "quick"
+    c.rule = ("cond part: scripted queue shapes (1-6 waiters {ULT,external}x{timed,untimed}, distinct deadlines incl. far "
+              "future) under a manual virtual clock, each driven by a random script of clock advances/signals/broadcasts and "
+              "compared with a reference queue after every step, plus producer/consumer soups with 0-70% timed waits (past/"
+              "now/near-future deadlines) racing with signals; pool part: pool histories with pop_wait/pop_timedwait racing "
+              "with pushes (exactly-once, no empty return while provably non-empty) and blocking pops on a pool that stays "
+              "empty; non-trivial = a timed-out waiter was removed from the queue / a blocking pop returned a unit pushed "
+              "while it waited; distinct = distinct queue shapes (counted by the harness) + distinct soup/history signatures")
+    c.assumptions = ["virtual clock: the harness's clock_gettime() replaces libc's for the statically linked library; "
+                     "external timed waiters really sleep, so their deadlines are a few virtual milliseconds apart",
+                     "'returns in bounded time' is decided by the call returning at all before a 20 s (x sanitizer factor) "
+                     "bound in uncontended phases; measured durations are evidence only"]
+    for i, s in enumerate(seeds(seed, 3 if q else 24, salt=5)):
+        c.add(Run("h_cond", "mon", ["--seed", s, "--mode", "script", "--shapes", 500 if q else 4000, "--max-n", 6,
+                                    "--watchdog", 120 if q else 900], weight=2, tag="script%d" % i,
+                  extra_sources=("vclock.c",)))
+    c.add(Run("h_cond", "asan", ["--seed", seed + 177, "--mode", "script", "--shapes", 200 if q else 2500, "--max-n", 6,
+                                 "--watchdog", 120], weight=2, tag="script-asan", extra_sources=("vclock.c",)))
+    c.add(Run("h_cond", "tsan", ["--seed", seed + 178, "--mode", "script", "--shapes", 60 if q else 600, "--max-n", 5,
+                                 "--watchdog", 120], weight=2, tag="script-tsan", extra_sources=("vclock.c",)))
+    profiles = [hammer("TIMEDOUT_BEFORE_RELOCK", "SIGNAL_EXT_AFTER_READY", "COND_WAIT_AFTER_UNLOCK",
+                       "FUTEX_WAIT_AFTER_UNLOCK"), "uniform", "off"]
+    for i, s in enumerate(seeds(seed, 4 if q else 30, salt=6)):
+        c.add(Run("h_cond", "mon", ["--seed", s, "--mode", "soup", "--rounds", 6 if q else 20, "--quota", 250 if q else 1200,
+                                    "--delay", profiles[i % 3], "--watchdog", 60 if q else 300], weight=4,
+                  tag="soup%d" % i, extra_sources=("vclock.c",)))
+    pprof = ["off", hammer(*POOL_HAMMER), "uniform"]
+    for i, s in enumerate(seeds(seed, 4 if q else 30, salt=7)):
+        c.add(Run("h_pool", "mon", ["--seed", s, "--histories", 30 if q else 300, "--ops", 300 if q else 1200,
+                                    "--delay", pprof[i % 3], "--watchdog", 60 if q else 300], weight=6, tag="pool%d" % i))
+    c.add(Run("h_pool", "asan", ["--seed", seed + 179, "--histories", 10 if q else 60, "--ops", 150, "--watchdog", 60],
+              weight=6, tag="pool-asan"))
+    c.nontrivial = lambda r: True
+    c.required_points = ["TIMEDOUT_REMOVE_HEAD", "TIMEDOUT_REMOVE_MIDDLE", "TIMEDOUT_REMOVE_TAIL", "TIMEDOUT_ALREADY_READY",
+                         "TIMEDOUT_BEFORE_RELOCK"]
+    c.required_counters = ["shapes", "timeouts", "signals", "broadcasts", "popwait_with_unit", "popwait_empty",
+                           "blocking_pops_on_empty_pool_returned", "deadline_in_past"]
+    return c
